@@ -74,6 +74,12 @@ def check(tier):
                 continue
             rep.fail('C04.total:%s' % a['kind'], a['file'], a['func'], a['construct'], a['line'],
                      '%s may escape %s.format() on an accepted number (%s): %s' % (a['kind'], mn.replace('stdnum.', ''), a.get('input', ''), a['why']))
+        # --- result kind: a string on every path (None from a function that falls off its end is a TypeError in every caller)
+        kinds = set(rec.get('kinds') or [])
+        if kinds and mn not in scope.C04_UNDECIDED:
+            rep.check(kinds <= {'str'}, 'C04.total:kind', file, 'format', 'result kinds %s' % sorted(kinds), rec['where'][1],
+                      '%s.format() can return %s for an accepted number instead of a string' % (mn.replace('stdnum.', ''), ', '.join(sorted(kinds - {'str'}))),
+                      what='%s.format() returns a string on all %d paths' % (mn, rec.get('paths', 0)))
         # --- round trip
         probs = rec.get('roundtrip_problems') or []
         if probs or not rec.get('roundtrips'):
